@@ -174,4 +174,21 @@ def parseNegoItem (item : Str) : Str × Option Str :=
 
 def parseNegotiation (value : Str) : List (Str × Option Str) := (value.splitOn ',').map parseNegoItem
 
+/-- one item as `render_negotiation` writes it: `value` or `value;q=quality` -/
+def renderNegoItem (v : Str) (q : Option Str) : Str :=
+  match q with
+  | none => v
+  | some q => v ++ (';' :: 'q' :: '=' :: q)
+
+/-- `', '.join(values)` -/
+def joinCommaSpace : List Str → Str
+  | [] => []
+  | [x] => x
+  | x :: y :: rest => x ++ ',' :: ' ' :: joinCommaSpace (y :: rest)
+
+/-- `render_negotiation`; the quality is given by its text (`str(q)`) -/
+def renderNegotiation (items : List (Str × Option Str)) : Str :=
+  joinCommaSpace (items.map fun x => renderNegoItem x.1 x.2)
+
+
 end Poor.HeaderValue
